@@ -352,6 +352,11 @@ func TestC17(t *testing.T) {
 			r.Violation(f.Sig, map[string]interface{}{"scenario": s, "schedule": append([]int{}, schedule...), "trace": x2.Trace, "detail": f.Detail})
 		}
 		e.Run()
+		if okr, badr := e.ValidateReplays(); badr > 0 {
+			r.Violation("HARNESS: NONDETERMINISM: an explored schedule does not reproduce when replayed", nil)
+		} else {
+			r.Validated(okr)
+		}
 		r.Eval(e.Execs)
 		r.States(e.Execs)
 		r.Transitions(e.PointsTotal)
